@@ -32,6 +32,10 @@ type Prog struct {
 
 	GoFiles      int
 	IgnoredFiles int
+
+	decls    []*declInfo
+	src      *srcCache
+	Recovery *RecoveryReport // renames recognised against the embedded baseline, novel helpers
 }
 
 // Unit is one function body: a declared function/method or a function literal.
@@ -113,6 +117,7 @@ func Load(dir string) (*Prog, error) {
 	if len(p.All) < 9 {
 		return nil, fmt.Errorf("expected >= 9 repository packages, loaded %d", len(p.All))
 	}
+	p.Recovery = p.recoverNames()
 	for _, pk := range p.All {
 		p.indexPkg(pk)
 	}
@@ -129,6 +134,9 @@ func FuncKey(f *types.Func) string {
 		return "<nil>"
 	}
 	f = f.Origin()
+	if k, ok := funcAlias[f]; ok {
+		return k
+	}
 	pkg := ""
 	if f.Pkg() != nil {
 		pkg = f.Pkg().Path()
@@ -267,7 +275,7 @@ func (p *Prog) indexLits(u *Unit) {
 				h := ""
 				if len(x.Lhs) == len(x.Rhs) {
 					if id, ok := x.Lhs[i].(*ast.Ident); ok {
-						h = id.Name
+						h = CanonIdent(u.Pkg.TypesInfo, id)
 					} else if se, ok := x.Lhs[i].(*ast.SelectorExpr); ok {
 						h = se.Sel.Name
 					}
@@ -286,7 +294,7 @@ func (p *Prog) indexLits(u *Unit) {
 			for i, r := range x.Values {
 				h := ""
 				if i < len(x.Names) {
-					h = x.Names[i].Name
+					h = CanonIdent(u.Pkg.TypesInfo, x.Names[i])
 				}
 				if _, isLit := unwrapConv(r).(*ast.FuncLit); isLit {
 					visit(unwrapConv(r), h)
